@@ -66,6 +66,11 @@ namespace adept {
 	// (if Expression is already an Array then this will make a
 	// shallow copy). Ought to check for aliasing.
 	const Array<E::rank,T,E::is_active> xx(x.cast());
+	if (xx.empty()) {
+	  // An empty object contributes no elements (and has no data
+	  // to read)
+	  return *this;
+	}
 	ExpressionSize<Rank-1> leading_dim;
 	//	leading_dim.copy_dissimilar(xx.dimensions());
 	partial_copy(xx.dimensions(), leading_dim);
